@@ -1,4 +1,6 @@
 CONSTANT Tier = "d0"
+CONSTANT Coerce = FALSE
+CONSTANT Deviations = {}
 SPECIFICATION Spec
 INVARIANT ResultShape
 INVARIANT LocsInData
